@@ -240,6 +240,72 @@ class _ShutilProxy:
         return getattr(_real_shutil, name)
 
 
+class _OsProxy:
+    """`os` as seen by typhon.files.fileset: the low-level calls a re-written
+    save_cache might use (os.open/fdopen/rename/replace/remove) go through the
+    SimDisk when they touch the cache directory; everything else is the real os."""
+
+    def __init__(self, disk):
+        self._disk = disk
+        self._fds = set()
+
+    def _mine(self, path):
+        try:
+            return os.path.dirname(os.path.abspath(os.fspath(path))) == \
+                os.path.dirname(self._disk.cache_path)
+        except TypeError:
+            return False
+
+    def open(self, path, flags, mode=0o777, **kw):
+        d = self._disk
+        if d.dead:
+            raise SimCrash()
+        if self._mine(path) and flags & (os.O_WRONLY | os.O_RDWR):
+            d._point("open_w")
+            d.log.append(f"os.open {os.path.basename(str(path))} "
+                         f"{'trunc' if flags & os.O_TRUNC else 'no-trunc'}")
+            fd = os.open(path, flags, mode, **kw)
+            self._fds.add(fd)
+            return fd
+        return os.open(path, flags, mode, **kw)
+
+    def fdopen(self, fd, *a, **kw):
+        if fd in self._fds:
+            self._fds.discard(fd)
+            f = _SimFile(self._disk, io.open(fd, "wb", buffering=0))
+            f.BUFSIZE = self._disk.bufsize
+            return f
+        return os.fdopen(fd, *a, **kw)
+
+    def _step_then(self, kind, fn, *paths):
+        d = self._disk
+        if d.dead:
+            raise SimCrash()
+        if any(self._mine(p) for p in paths):
+            d._point(kind)
+            d.log.append(kind)
+        r = fn(*paths)
+        if kind == "rename" and os.path.abspath(os.fspath(paths[1])) == d.cache_path:
+            d.unreadable = False
+            d.renamed = True
+        return r
+
+    def rename(self, src, dst, **kw):
+        return self._step_then("rename", os.rename, src, dst)
+
+    def replace(self, src, dst, **kw):
+        return self._step_then("rename", os.replace, src, dst)
+
+    def remove(self, path, **kw):
+        return self._step_then("remove", os.remove, path)
+
+    def unlink(self, path, **kw):
+        return self._step_then("remove", os.unlink, path)
+
+    def __getattr__(self, name):
+        return getattr(os, name)
+
+
 class _Atexit:
     def __init__(self):
         self.handlers = []
@@ -606,6 +672,7 @@ class Exec:
             crashed = False
             with patched((fsmod, "open", bdisk.open),
                          (fsmod, "shutil", _ShutilProxy(bdisk)),
+                         (fsmod, "os", _OsProxy(bdisk)),
                          (fsmod, "atexit", bat)):
                 bdisk.begin_save()
                 try:
@@ -632,6 +699,7 @@ class Exec:
                     "flush": "crash_before_flush",
                     "flush_at_close": "crash_before_flush",
                     "close": "crash_before_close", "rename": "crash_before_rename",
+                    "remove": "crash_before_remove",
                     "after_rename": "crash_after_rename"}[kind]
             if isinstance(tv, str):
                 name = "io_error_" + tv
@@ -815,6 +883,7 @@ class Exec:
         fsmod = _T["fsmod"]
         with patched((fsmod, "open", self.disk.open),
                      (fsmod, "shutil", _ShutilProxy(self.disk)),
+                     (fsmod, "os", _OsProxy(self.disk)),
                      (fsmod, "atexit", self.atexit)):
             try:
                 self.start()
